@@ -5,7 +5,8 @@
    Field / argument / input-field names are WORD SEQUENCES; a schema value carries the flag `camel` saying how multi-word
    names are spelled (snake_case in the base; camelCase after CamelCaseSchemaTransform).  Every element carries the
    attributes the property says must be preserved when untouched: python name (py), resolver id (res), default (hasDef/def),
-   description (desc), deprecation (dep); types carry desc, default-resolver id (dres) and type-resolver id (rt).
+   description (desc), deprecation (dep); types carry desc, default-resolver id (dres) and type-resolver id (rt); the schema
+   itself carries the id of its schema-wide default resolver (sdres).
 
    Actions (each derives schema n+1 from a live schema src, or observes one):
      Clone(src)                      value copy
@@ -28,7 +29,8 @@ NoDef == [k |-> "null"]
 Arg(w, t, py) == [w |-> w, type |-> t, hasDef |-> FALSE, def |-> NoDef, py |-> py, desc |-> ""]
 ArgD(w, t, py, d) == [w |-> w, type |-> t, hasDef |-> TRUE, def |-> d, py |-> py, desc |-> "arg " \o py]
 Fld(w, t, as, py, res, dep) == [w |-> w, type |-> t, args |-> as, py |-> py, res |-> res, dep |-> dep, desc |-> "field " \o py]
-Base == [camel |-> FALSE, query |-> "Query", mutation |-> "", subscription |-> "Sub",
+\* sdres: the schema-wide default resolver (schema.default_resolver = f, the documented way to set it)
+Base == [camel |-> FALSE, query |-> "Query", mutation |-> "", subscription |-> "Sub", sdres |-> "dr_schema",
   types |-> <<
     [k |-> "object", name |-> "Query", ifaces |-> <<>>, desc |-> "the root", dres |-> "", rt |-> "",
        fields |-> << Fld(<<"user", "name">>, Named("String"), <<>>, "user_name", "r_user_name", ""),
